@@ -120,10 +120,10 @@ def generate(ctx):
     # flushed, so shared nodes live in the memory layer only) over prefix-heavy key sets: an extension sits above a branch, and
     # adding/removing a key splits or shortens that extension, so that two committed roots share the branch below DIFFERENT extensions
     for r, (keys, val) in enumerate([("2, 3, 5", "3"), ("5, 6, 7", "4"), ("1, 2, 3, 4", "3")]):
-        g = ctx.tlc_must("Trie", G_CFG % (keys, val, 9 if quick else 10, 3, "gcx"), name="G1_gcx%d" % r, timeout=1500)
+        g = ctx.tlc_must("Trie", G_CFG % (keys, val, 9 if (quick or r == 2) else 10, 3, "gcx"), name="G1_gcx%d" % r, timeout=1500)
         add(hists(g), "plain", 1 << 30)
         if not quick:
-            add(hists(g), "secure", 1 << 30, limit=1500)
+            add(hists(g), "secure", 1 << 30, limit=800)
     n1 = len(behs)
 
     # G2gc: simulation over the garbage-collection alphabet (commit + reference as core/blockchain.go does with every block,
